@@ -345,3 +345,9 @@ func VHSetIndexes(f *FSM, local, leader uint64) {
 
 // VHContent reads the whole user content through the real range path.
 func VHContent(f *FSM) []*regattapb.KeyValue { return vhWhole(f).Kvs }
+
+func vhSet(db *pebble.DB, k, v []byte) {
+	if err := db.Set(vhEnc(k), v, pebble.NoSync); err != nil {
+		panic(err)
+	}
+}
